@@ -154,10 +154,75 @@ def blocks(tier, seed, **opts):
     return r
 
 
-FUNCS = {'blocks': blocks}
+DESCRIPTIONS = ['plain', 'a = b + 1', 'exogenous demand for goods', '# hash inside', 'MaxTime = 99', 'x(0) = 7 and t = 3',
+                'An unusually long description that goes on well past seventy-two characters and mentions the exogenous government demand = 20',
+                'Another long free text without the marker word that is also well past the seventy-two character mark, with = and # in it',
+                'Exogenous', 'ends with a hash #']
+
+
+def build_described_model(descs):
+    from sfc_models.models import Model, Country
+    from sfc_models.sector import Sector
+    mod = Model()
+    c = Country(mod, 'CA', long_name=descs[0])
+    s = Sector(c, 'AA', long_name=descs[1], has_F=False)
+    s.AddVariable('x', descs[2], '0.5*y + LAGZ + 1')
+    s.AddVariable('y', descs[3], '0.25*x + g')
+    s.AddVariable('g', descs[4], '0.0')
+    s.AddVariable('z', descs[5], 'x + y')
+    s.AddVariable('LAGZ', descs[6], 'z(k-1)')
+    s.AddInitialCondition('z', 2.0)
+    s.SetExogenous('g', '[2., 3., 4., 5., 6., 7.]')
+    mod.AddGlobalEquation('tot', descs[7], 'AA__x + AA__y')
+    mod.MaxTime = 3
+    mod.main()
+    p = mod.EquationSolver.Parser
+    cls = (sorted(n for n, _ in p.Endogenous), sorted(n for n, _ in p.Lagged), sorted(n for n, _ in p.Exogenous), sorted(n for n, _ in p.Decoration),
+           sorted(p.InitialConditions), p.MaxTime)
+    return cls, dict((k, list(v)) for k, v in mod.EquationSolver.TimeSeries.items())
+
+
+def descriptions(tier, seed, **opts):
+    r = Result("a model built through the public API whose country / sector long names and variable / global-equation descriptions are drawn from 10 free texts "
+               "(containing '=', '#', digits, 'MaxTime = 99', the word exogenous, and two texts longer than 72 characters): classification by the parser and "
+               'solved series must equal those of the same model with bland descriptions: 40 (quick) / 1000 (thorough) draws')
+    rnd = random.Random(seed)
+    try:
+        ref = build_described_model(['plain'] * 8)
+    except Exception as ex:
+        r.fail('descriptions', {'descs': ['plain'] * 8}, 'reference model raised %s: %s' % (type(ex).__name__, ex))
+        return r
+    for i in range(40 if tier == 'quick' else 1000):
+        descs = [rnd.choice(DESCRIPTIONS) for _ in range(8)] if i >= len(DESCRIPTIONS) else [DESCRIPTIONS[i]] * 8
+        try:
+            got = build_described_model(descs)
+            bad = None
+            if got[0] != ref[0]:
+                bad = 'classification %r, with bland descriptions %r' % (got[0], ref[0])
+            elif got[1] != ref[1]:
+                bad = 'series differ: %r' % sorted(k for k in ref[1] if got[1].get(k) != ref[1][k])[:4]
+        except Exception as ex:
+            bad = 'raised %s: %s' % (type(ex).__name__, str(ex)[:200])
+        r.case(tuple(descs), True)
+        if bad:
+            r.fail('descriptions', {'descs': descs}, 'descriptions %r: %s' % (descs, bad))
+            break
+    return r
+
+
+FUNCS = {'blocks': blocks, 'descriptions': descriptions}
 
 
 def replay(payload):
+    if payload.get('kind') == 'bounded-failure' and 'descs' in payload['native']['input']:
+        inp = payload['native']['input']
+        ref = build_described_model(['plain'] * 8)
+        try:
+            got = build_described_model(inp['descs'])
+            bad = None if got == ref else 'classification / series differ from the bland model'
+        except Exception as ex:
+            bad = 'raised %s: %s' % (type(ex).__name__, ex)
+        return {'reproduced': bool(bad), 'detail': bad, 'input': inp}
     if payload.get('kind') == 'bounded-failure':
         inp = payload['native']['input']
         st = inp['structure']
